@@ -237,6 +237,12 @@ def limits_job(cfg):
     return n, res
 
 
+def sample_modes(name, prior, seq):
+    cfg = [c for c in e2e_configs() if c['name'] == name][0]
+    vio, n = run_modes(cfg, prior, seq)
+    return dict(config=name, prior_group1=prior, sequence=[[m.name, p, s] for m, p, s in seq], mode_changes=n, violations=vio)
+
+
 def run(tier, seed, rep):
     ej = [('v1', 0, False)] + [('v2', t, is745) for t in (0, 1, 2, 3, 4, 5, 6, 85) for is745 in (False, True)]
     n_enc = 0
@@ -267,7 +273,8 @@ def run(tier, seed, rep):
                      'every mode x (power, SoC) boundary grid, plus every ordered pair of modes (non-initial starts); export '
                      'limits 0..65534 step 100 + boundaries; DoD 0..100',
                state_definition='states = configuration x prior x mode cells; transitions = set_operation_mode calls',
-               samples=[dict(cfg='ES-v2', prior='peak-typed', sequence=[['ECO_CHARGE', 55, 50]])])
+               samples=[sample_modes('ES-v2', 'peak-typed', [(OM.ECO_CHARGE, 55, 50)]),
+                        sample_modes('ET-745', 'not-set', [(OM.ECO_DISCHARGE, 9, 100), (OM.GENERAL, 100, 100)])])
     return dict(level='model_checking', coverage=cov,
                 assumptions=['ECO and the emulated modes are one inverter work mode distinguished by eco group 1: for m = ECO '
                              'the expected getter result is the reference classification of the stored group 1',
